@@ -231,6 +231,8 @@ import sender
 PROFILES["C13"] = {"run": sender.run}
 import approval
 PROFILES["C12"] = {"run": approval.run}
+import events
+PROFILES["C15"] = {"run": events.run}
 import heartbeat
 PROFILES["C16"] = {"run": heartbeat.run}
 import tree
